@@ -3,21 +3,28 @@
 import json, os, subprocess, sys, glob, re
 PROPS = ["C%02d" % i for i in range(1, 20)]
 def sh(cmd): return subprocess.run(cmd, shell=True, text=True, stdout=subprocess.PIPE, stderr=subprocess.STDOUT)
-assert sh("git -C /repo status --porcelain -- src").stdout.strip() == ""
+WT = os.environ.get("BENIGN_WT")  # optional scratch worktree to patch instead of /repo (development runs)
+TARGET = WT or "/repo"
+if WT:
+    if not os.path.isdir(WT):
+        sh("git -C /repo worktree add -q --detach %s HEAD" % WT)
+    sh("git -C %s checkout -q --detach %s && git -C %s reset -q --hard" % (WT, sh("git -C /repo rev-parse HEAD").stdout.strip(), WT))
+ENV = dict(os.environ); ENV["ORX_REPO"] = TARGET
+assert sh("git -C %s status --porcelain -- src" % TARGET).stdout.strip() == ""
 res = {}
 for pf in sorted(glob.glob(sys.argv[1] + "/b*.diff")):
     name = os.path.basename(pf)[:-5]
-    if sh("git -C /repo apply %s" % pf).returncode != 0:
+    if sh("git -C %s apply %s" % (TARGET, pf)).returncode != 0:
         print(name, "cannot apply"); continue
     try:
-        procs = {p: subprocess.Popen(["./check", p], cwd="/verif", text=True, stdout=subprocess.PIPE, stderr=subprocess.STDOUT) for p in PROPS}
+        procs = {p: subprocess.Popen(["./check", p], cwd="/verif", text=True, stdout=subprocess.PIPE, stderr=subprocess.STDOUT, env=ENV) for p in PROPS}
         bad = {}
         for p, pr in procs.items():
             out = pr.communicate()[0]
             if pr.returncode != 0:
                 bad[p] = [l[:230] for l in out.splitlines() if re.match(r"^\S+: \[|^INFRA|Traceback", l)][:3] + ["rc=%d" % pr.returncode]
     finally:
-        sh("git -C /repo checkout -- src")
+        sh("git -C %s checkout -- src && git -C %s clean -fdq -- src" % (TARGET, TARGET))
     res[name] = bad
     print(name, "SILENT" if not bad else "ALARMS: " + json.dumps(bad, indent=1)[:1500], flush=True)
-json.dump(res, open("/verif/selftest/benign_result.json", "w"), indent=1)
+json.dump(res, open(sys.argv[1].rstrip("/") + "_result.json", "w"), indent=1)
